@@ -1,6 +1,10 @@
 package props
 
 import (
+	"go/types"
+	"sort"
+	"strings"
+
 	"golang.org/x/tools/go/ssa"
 
 	"idenaverif/internal/engine"
@@ -207,6 +211,7 @@ func C16(p *engine.Prog, r *engine.Report) {
 	}
 	r.Floor("C16-R3", 5, "producer, consumer, 2 recipient readers, shard agreement")
 	c16R4(p, r)
+	c16R5(p, r)
 }
 
 // varNameOf: the source variable name behind a value when it is a load of a named local /
@@ -395,4 +400,98 @@ func dependsOnLoopPosition(v ssa.Value, blocks map[*ssa.BasicBlock]bool) bool {
 		}
 	}
 	return false
+}
+
+// c16R5: the key-extraction path (GetEncryptedPrivateFlipKey, GetPublicFlipKey) answers from
+// per-epoch containers of KeysPool; every such container that is filled after construction is
+// re-created by KeysPool.Clear (run at the epoch switch). A container that survives Clear makes
+// next epoch's solvers read last epoch's keys.
+func c16R5(p *engine.Prog, r *engine.Report) {
+	clear := mustFunc(p, r, "core/mempool", "KeysPool.Clear")
+	var entries []*ssa.Function
+	for _, n := range []string{"KeysPool.GetEncryptedPrivateFlipKey", "KeysPool.GetPublicFlipKey"} {
+		if f := mustFunc(p, r, "core/mempool", n); f != nil {
+			entries = append(entries, f)
+		}
+	}
+	if clear == nil || len(entries) == 0 {
+		return
+	}
+	isKP := func(v ssa.Value) bool {
+		o, _, ok := engine.FieldOf(v)
+		return ok && o == "KeysPool"
+	}
+	// fields read by the extraction path (static callees that are KeysPool methods)
+	read := map[string]bool{}
+	seen := map[*ssa.Function]bool{}
+	var visit func(f *ssa.Function)
+	visit = func(f *ssa.Function) {
+		if f == nil || seen[f] || f.Blocks == nil {
+			return
+		}
+		seen[f] = true
+		r.Fn(engine.FuncName(f))
+		for _, b := range f.Blocks {
+			for _, ins := range b.Instrs {
+				if u, ok := ins.(*ssa.UnOp); ok && isKP(u.X) {
+					if _, isMap := u.Type().Underlying().(*types.Map); isMap {
+						_, fld, _ := engine.FieldOf(u.X)
+						read[fld] = true
+					}
+				}
+				if c, ok := ins.(ssa.CallInstruction); ok {
+					if cal := c.Common().StaticCallee(); cal != nil && cal.Signature.Recv() != nil {
+						if n := engine.NamedOf(cal.Signature.Recv().Type()); n != nil && n.Obj().Name() == "KeysPool" {
+							visit(cal)
+						}
+					}
+				}
+			}
+		}
+	}
+	for _, e := range entries {
+		visit(e)
+	}
+	// fields filled after construction
+	filled := map[string]string{}
+	for _, f := range funcsOfPkg(p, "core/mempool") {
+		if f.Blocks == nil || isTestish(p.Pos(f.Pos())) || f == clear || (f.Parent() == nil && strings.HasPrefix(f.Name(), "New")) {
+			continue
+		}
+		for _, b := range f.Blocks {
+			for _, ins := range b.Instrs {
+				if mu, ok := ins.(*ssa.MapUpdate); ok {
+					if u, isLoad := engine.Unwrap(mu.Map).(*ssa.UnOp); isLoad && isKP(u.X) {
+						_, fld, _ := engine.FieldOf(u.X)
+						if filled[fld] == "" {
+							filled[fld] = p.InstrPos(mu)
+						}
+					}
+				}
+			}
+		}
+	}
+	// what Clear re-creates
+	fresh := map[string]bool{}
+	for _, b := range clear.Blocks {
+		for _, ins := range b.Instrs {
+			if st, ok := ins.(*ssa.Store); ok && isKP(st.Addr) {
+				if _, isMake := engine.Unwrap(st.Val).(*ssa.MakeMap); isMake {
+					_, fld, _ := engine.FieldOf(st.Addr)
+					fresh[fld] = true
+				}
+			}
+		}
+	}
+	var names []string
+	for f := range read {
+		if filled[f] != "" {
+			names = append(names, f)
+		}
+	}
+	sort.Strings(names)
+	for _, f := range names {
+		r.Check(fresh[f], "C16-R5", "KeysPool.Clear|re-creates "+f, p.Pos(clear.Pos()), "fresh map stored on the epoch switch (filled at "+filled[f]+")", "KeysPool."+f+" is read when a solver asks for a flip key and is filled during the epoch, but survives Clear: after the epoch switch a recipient is answered from the previous epoch's keys/packages (wrong key, or a slot encrypted for whoever held that index last epoch)")
+	}
+	r.Floor("C16-R5", 2, "flipKeys, flipKeyPackages, privateKeysArrayCache")
 }
